@@ -193,13 +193,13 @@ var verifNames = []string{"a", "bb", "c.txt", "dir", "e", "zz", "f1", "g"}
 func VerifC13_Archive() {
 	maxFan := 3
 	if vTier() > 0 {
-		maxFan = 6
+		maxFan = 4
 	}
 	nfiles := 0
 	mk := func(path, name string, mode os.FileMode, size int) *File {
 		f := &File{Name: name, Path: path, Mode: mode, Uid: vInt("uid"), Gid: 5, ModTime: time.Unix(0, vI64("mtime"))}
 		nx := 0
-		if nfiles < 2 || vTier() > 0 { // quick: only the root and its first child carry xattrs
+		if nfiles < 2 || (vTier() > 0 && nfiles < 3) { // only the root and its first child (thorough: two children) carry xattrs
 			nx = vChoose("xattrs", 3)
 		}
 		nfiles++
